@@ -24,6 +24,17 @@ type InnerB struct {
 	IL []string `json:"il,omitempty"`
 }
 
+// deeper inline nesting: the fields of InnerA are reached through two and three embeddings
+type InnerC struct {
+	InnerA `json:",inline"`
+	IC     string `json:"ic"`
+}
+type InnerD struct {
+	InnerC  `json:",inline"`
+	*InnerB `json:",inline"`
+	ID      int64 `json:"id,omitempty"`
+}
+
 type gtypeS struct {
 	rt   reflect.Type
 	sexp string
@@ -151,8 +162,13 @@ func genStructType(r *rand.Rand, depth int, outside bool) reflect.Type {
 	if r.Intn(3) == 0 {
 		it := reflect.TypeOf(InnerA{})
 		nm := "InnerA"
-		if r.Intn(2) == 0 {
+		switch r.Intn(5) {
+		case 0, 1:
 			it, nm = reflect.TypeOf(InnerB{}), "InnerB"
+		case 2:
+			it, nm = reflect.TypeOf(InnerC{}), "InnerC"
+		case 3:
+			it, nm = reflect.TypeOf(InnerD{}), "InnerD"
 		}
 		if r.Intn(2) == 0 {
 			it = reflect.PtrTo(it)
